@@ -18,7 +18,7 @@ VARIABLES pos, viol, cnt
 
 PrepSeq(cs) == [i \in 1..Len(cs) |-> PrepC(NegLineCache, cs[i])] \o <<>>
 
-\* predicates for the codecs N in use for one kind; tag distinguishes the observation point
+\* predicates for the codecs N in use for one kind (MediaEngine state)
 KindPreds(tag, kind, L, R, N) ==
   LET any == Len(N) > 0 IN {
     PD("C15", "OfferedByRemote" \o tag, any, \A i \in 1..Len(N) : OfferedByRemote(N[i], R), kind),
@@ -29,11 +29,33 @@ KindPreds(tag, kind, L, R, N) ==
 \* setCodecPreferencesFromRemoteDescription matches the offered codecs against the *negotiated* ones,
 \* so GetParameters may list an offered codec a second time under the payload type of another
 \* offered codec that it matches (Match is not transitive), with the feedback intersected once more.
+\* (RemotePayloadType accepts that as long as the two codecs are compatible; when they are merely a
+\* partial match of each other it fails: the known finding of checks/findings/C15.txt.)
 \* ExactPreferred and FeedbackIsIntersection are therefore judged on the MediaEngine state only (the
 \* set incoming payload types are resolved against); on the API path only "within both sides".
 FeedbackWithinBothSides(c, L, R) ==
   \E i \in 1..Len(R), j \in 1..Len(L) :
      SameCodec(c, R[i]) /\ MatchedBy(c, L[j]) /\ SeqSet(c.fb) \subseteq (SeqSet(R[i].fb) \cap SeqSet(L[j].fb))
+
+\* On the API path RemotePayloadType is judged per codec and a failure is reported under the CLASS of
+\* the failing codec instead of the whole vector (the vectors are random, a known finding must be
+\* recognisable in any of them): mime type up to case; whether the codec matches itself (an H264
+\* codec without packetization-mode or with a malformed profile-level-id does not); what the payload
+\* type it is listed under belongs to in the offer.
+ApiKindPreds(where, L, R, N) ==
+  LET any == Len(N) > 0 IN {
+    PD("C15", "OfferedByRemote@api", any, \A i \in 1..Len(N) : OfferedByRemote(N[i], R), where),
+    PD("C15", "RemotePayloadType@api", any, TRUE, where),      \* counted here, judged by ApiPtFailures
+    PD("C15", "MatchesLocal@api", any, \A i \in 1..Len(N) : MatchesLocal(N[i], L), where) }
+PtClass(c, R) ==
+  c.P.mf \o ":" \o (IF Match(c, c) THEN "self-matching" ELSE "not-self-matching") \o ":" \o
+  (IF \E i \in 1..Len(R) : R[i].pt = c.pt /\ PartialMatch(R[i], c) THEN "listed-under-pt-of-another-offered-codec-of-same-mime-clock-channels"
+   ELSE IF \E i \in 1..Len(R) : R[i].pt = c.pt THEN "listed-under-pt-of-an-unrelated-offered-codec"
+   ELSE "listed-under-pt-not-offered")
+ApiPtFailuresOf(e, ln, where, R, N) ==
+  { [prop |-> "C15", pred |-> "RemotePayloadType@api:" \o where, trace |-> e.t, line |-> ln,
+     sig |-> "RemotePayloadType@api:" \o where \o ":" \o PtClass(N[n], R)]
+    : n \in {n \in 1..Len(N) : ~RemotePayloadType(N[n], R)} }
 
 KindRec(e, kind) == CHOOSE k \in SeqSet(e.kinds) : k.kind = kind
 Covered(e) == SelectSeq(e.kinds, LAMBDA k : k.present)
@@ -59,9 +81,14 @@ ApiPreds(e) ==
   LET us == SelectSeq(e.uses, LAMBDA u : u.kind \in {"audio", "video"} /\ KindRec(e, u.kind).present) IN
   UNION { LET k == KindRec(e, us[i].kind)
               L == PrepSeq(k.local) R == PrepSeq(k.remote) N == PrepSeq(us[i].codecs) IN
-          KindPreds("@api", us[i].kind \o "/" \o us[i].src, L, R, N) \cup
+          ApiKindPreds(us[i].kind \o "/" \o us[i].src, L, R, N) \cup
           { PD("C15", "FeedbackWithinBothSides@api", Len(N) > 0,
                \A n \in 1..Len(N) : FeedbackWithinBothSides(N[n], L, R), us[i].kind \o "/" \o us[i].src) }
+          : i \in 1..Len(us) }
+
+ApiPtFailures(e, ln) ==
+  LET us == SelectSeq(e.uses, LAMBDA u : u.kind \in {"audio", "video"} /\ KindRec(e, u.kind).present) IN
+  UNION { ApiPtFailuresOf(e, ln, us[i].kind \o "/" \o us[i].src, PrepSeq(KindRec(e, us[i].kind).remote), PrepSeq(us[i].codecs))
           : i \in 1..Len(us) }
 
 Init == pos = 1 /\ viol = {} /\ cnt = EmptyCount
@@ -71,7 +98,7 @@ Step ==
   /\ LET e == Trace[pos] IN
        IF e.ev \in {"neg", "api"} /\ e.err = ""
        THEN LET ps == IF e.ev = "neg" THEN NegPreds(e) ELSE ApiPreds(e) IN
-            /\ viol' = viol \cup Failures(ps, e, pos)
+            /\ viol' = Merge(viol, Failures(ps, e, pos) \cup (IF e.ev = "api" THEN ApiPtFailures(e, pos) ELSE {}))
             /\ cnt'  = Count(cnt, ps)
        ELSE UNCHANGED <<viol, cnt>>
   /\ pos' = pos + 1
